@@ -77,7 +77,7 @@ func c13Trip(r *core.Rand, zones []*time.Location) *gtfs.Trip {
 			DirectionID:          gtfs.DirectionID(r.Intn(3)),
 			HasStartTime:         r.Bool(),
 			HasStartDate:         r.Bool(),
-			ScheduleRelationship: gtfsrt.TripDescriptor_ScheduleRelationship(r.Intn(3)),
+			ScheduleRelationship: gtfsrt.TripDescriptor_ScheduleRelationship(core.Pick(r, []int32{0, 1, 2, 3, 5, 6, 7, 0, 1, 4})),
 		},
 		IsEntityInMessage: r.Bool(),
 	}
@@ -94,7 +94,7 @@ func c13Trip(r *core.Rand, zones []*time.Location) *gtfs.Trip {
 			NyctTrack:            c13StrPtr(r),
 			Arrival:              c13Event(r, zones),
 			Departure:            c13Event(r, zones),
-			ScheduleRelationship: gtfsrt.TripUpdate_StopTimeUpdate_ScheduleRelationship(r.Intn(3)),
+			ScheduleRelationship: gtfsrt.TripUpdate_StopTimeUpdate_ScheduleRelationship(core.Pick(r, []int32{0, 1, 2, 3, 0, 1})),
 		}
 		if !r.Chance(1, 3) {
 			s := uint32(r.Intn(2))
